@@ -119,9 +119,9 @@ class StreamModel(Model):
         f = st.fresh(f"F_site{key}", U)
         st.assume(f != NONE_U)
         if param_shape.startswith("ref:"):
-            x = z3.Const("x!sf", IntS)
-            xv = VRef(x, param_shape[4:])
-            xe = self.BOX(x)
+            x = z3.Const("x!sf", U)
+            xv = VRef(self.UNBOX(x), param_shape[4:])
+            xe = x
         else:
             x = z3.Const("x!sf", U)
             xv = VU(x)
@@ -217,7 +217,8 @@ class StreamModel(Model):
                 raise E.RaiseEx("Foreign", line, "shard_filter raised")
             return res
         if isinstance(v, VStream):
-            return self.list_of_stream(st, v.t, line)
+            return self.list_of_stream(st, v.t, line,
+                                       eshape=getattr(v, "elem", None))
         if isinstance(v, VFunc) and v.name == "islice":
             return self.list_of_islice(st, v, line)
         return None
